@@ -25,6 +25,8 @@ RULES = {
     "C10-b": "PURE: no mutation through the value or its aliases and no file-system/subprocess effect on a PASS path",
     "C10-c": "no silent drop: every path through the loop body yields, raises, defers (job pool) or warns",
     "C10-d": "STATELESS: no loop-carried definitions, no writes to self in the per-value loop",
+    "C10-e": "AGREE: Write.run's selection predicate and its dispatch use the same condition for objects with a write method "
+             "(a value selected as writable is either such an object or a string)",
 }
 
 INSTANCES = [
@@ -340,7 +342,60 @@ def self_write(n):
     return None
 
 
+def check_write_agree(ctx):
+    """Write.run selects with the nested predicate is_writable(data, context) and later dispatches on
+    `hasattr(data, 'write') and callable(data.write)`.  Every path on which the predicate answers True must have
+    established either that dispatch condition or that the data is a string: otherwise a foreign object (a namedtuple
+    with a field `write`) is selected, its context is filled in and it falls into the string branch."""
+    res = ctx.res
+    fn = ctx.tree.func("lena.output.write", "Write.run")
+    preds = [d for d in fn.body if isinstance(d, ast.FunctionDef)]
+    loop = flow_loop(ctx, fn)
+    if not ctx.require(len(preds) == 1 and loop is not None and len(A.func_params(preds[0])) == 2, "C10-e", fn,
+                       "Write.run: the nested selection predicate was not found"):
+        return
+    pred = preds[0]
+    pd = A.func_params(pred)[0]
+    # the dispatch: the if whose body calls <data>.write(...)
+    disp = None
+    for i in A.walk_body(loop.body):
+        if isinstance(i, ast.If) and any(isinstance(c, ast.Call) and isinstance(c.func, ast.Attribute) and c.func.attr == "write"
+                                          and isinstance(c.func.value, ast.Name) for s2 in i.body for c in ast.walk(s2)):
+            disp = i
+            break
+    if not ctx.require(disp is not None, "C10-e", loop, "Write.run: the dispatch on a write method was not found"):
+        return
+    wcall = [c for s2 in disp.body for c in ast.walk(s2) if isinstance(c, ast.Call) and isinstance(c.func, ast.Attribute) and c.func.attr == "write"][0]
+    dd = wcall.func.value.id
+    want = sorted(A.norm_src(t, {dd: "DATA"}).replace('"', "'") for t, pol in A.literals(disp.test, True) if pol)
+    n = 0
+    for p in P.paths_of(pred):
+        if p.end != "return":
+            continue
+        r = [x for x in p.stmts() if isinstance(x, ast.Return)][-1]
+        if not (isinstance(r.value, ast.Constant) and r.value.value is True):
+            if not (isinstance(r.value, ast.Constant) and r.value.value is False):
+                ctx.unknown("C10-e", r, "is_writable returns `%s`" % A.short(r.value, 40))
+            continue
+        n += 1
+        have = [(A.norm_src(t, {pd: "DATA"}).replace('"', "'"), pol) for t, pol in p.literals()]
+        pos = {s2 for s2, pol in have if pol}
+        neg = {s2 for s2, pol in have if not pol}
+        via_write = all(w in pos for w in want)
+        # the string exits: every isinstance(DATA, str)-like test on the path was passed or the final fall-through after them
+        strish = ("isinstance(DATA, str)" in pos) or ("isinstance(DATA, str)" not in neg and any("isinstance(DATA, str" in s2 for s2 in pos)) \
+            or ("isinstance(DATA, str)" in neg and "isinstance(DATA, basestring)" in pos)
+        mentions_write = any("write" in s2 for s2 in pos)
+        ok = via_write or (not mentions_write and (strish or "isinstance(DATA, str)" not in neg))
+        ctx.check("C10-e", ok, r, "is_writable answers True on the path [%s], which has established neither the condition under which "
+                  "Write.run calls data.write (%s) nor that the data is a string: such a value is selected, gets output.* written into "
+                  "its context and is then treated as text" % (p.describe(4), " and ".join(want).replace("DATA", pd)),
+                  detail="is_writable True [%s] agrees with the dispatch" % p.describe(3), construct="writable:%s" % ",".join(sorted(pos)), path=p)
+    ctx.instances_floor("C10-e", n, 2, "True-returning paths of Write.run's selection predicate")
+
+
 def check(ctx):
+    check_write_agree(ctx)
     eff = Effects(ctx.res)
     ctx.instances_floor("C10", len(INSTANCES), 10, "selective elements")
     for modname, qual in INSTANCES:
@@ -348,6 +403,7 @@ def check(ctx):
 
 
 VARIANTS = [
+    M("writable-without-callable", "lena/output/write.py", "            if hasattr(data, \"write\") and callable(data.write):\n                return True", "            if hasattr(data, \"write\"):\n                return True", ["C10-e"]),
     M("tocsv-rebuild", "lena/output/to_csv.py", "            if not lena.context.get_recursively(context, \"output.to_csv\", True):\n                yield val",
       "            if not lena.context.get_recursively(context, \"output.to_csv\", True):\n                yield (data, context)", ["C10-a"]),
     M("render-update-before-select", "lena/output/render_latex.py", "        for val in flow:\n            if select_data(val):",
